@@ -113,10 +113,16 @@ func isStoreKeyField(v ssa.Value) bool {
 }
 
 func (ex *Exec) kvdecl(ghost string) KVDecl {
+	// several packages may declare the same module store (keeper, migrations): take the most complete declaration
+	var best *KVDecl
 	for _, kd := range ex.cs.KVStores {
-		if kd.Ghost == ghost {
-			return kd
+		kd := kd
+		if kd.Ghost == ghost && (best == nil || (best.PrefixFn == "" && kd.PrefixFn != "")) {
+			best = &kd
 		}
+	}
+	if best != nil {
+		return *best
 	}
 	fatalf("no kvstore declaration for %s", ghost)
 	return KVDecl{}
